@@ -83,7 +83,7 @@ def inputs(rng, name, tier, n):
         # cut at the 72-byte boundary matter under os_crypt)
         for ident in ("2", "2a", "2y", "2b"):
             for pw in ("\u20acab", "\U0001f511key", H.pw_text(rng, 5, (2, 3)), H.pw_bytes(rng, rng.choice([7, 23, 71, 72, 73, 100])),
-                       H.pw_bytes(rng, 9, "high")):
+                       H.pw_bytes(rng, 9, "high"), "", b"", "a" + "é" * 40, "ab" + "\u20ac" * 30):
                 out.append((dict(ident=ident, rounds=4, salt=H.gen_salt(h, rng, 22)), pw, "text" if isinstance(pw, str) else "binary"))
     if "os_crypt" in getattr(h, "backends", ()) and slist:
         # lengths the host's crypt() may refuse (libxcrypt: 512 bytes and more): the other backends take them, so must this one
@@ -151,8 +151,11 @@ def agree(run, name):
                     run.violation(f"C03|{name}|{b}|select|wrong-backend", f"{name}: set_backend({b!r}) left get_backend()={h.get_backend()!r}", dict(name=name))
                 first = H.apply(h, st).hash(pw)
                 # availability queries are read-only: they must not disturb the selected backend
-                for other in h.backends:
-                    h.has_backend(other)
+                for other in list(h.backends) + ["default", "any"]:
+                    try:
+                        h.has_backend(other)
+                    except ValueError:
+                        pass
                 results[b] = H.apply(h, st).hash(pw)
                 run.count("has_backend_queries", len(h.backends))
                 if results[b] != first or h.get_backend() != b:
